@@ -285,9 +285,12 @@ func checkMetadataAtPIT(r *runner) []Violation {
 	}
 	var vs []Violation
 	prop := r.sc.Property
+	// a version of a row: the metadata it carries and the instants between which it was written (creation: the
+	// date the property names - the transaction's timestamp / the account's insertion date; a change: the
+	// database clock between the begin and the commit of the SQL transaction that made it)
 	type ver struct {
-		date gotime.Time
-		meta map[string]string
+		from, to gotime.Time
+		meta     map[string]string
 	}
 	type ek struct{ table, ledger, id string }
 	versions := map[ek][]ver{}
@@ -296,21 +299,21 @@ func checkMetadataAtPIT(r *runner) []Violation {
 			switch row := wr.After.(type) {
 			case *AcctRow:
 				k := ek{"accounts", wr.Key.Ledger, row.Address}
-				d := row.UpdatedAt.Time
+				v := ver{rec.Begin, rec.At, row.Metadata}
 				if wr.Before == nil {
-					d = row.InsertionDate.Time
+					v.from, v.to = row.InsertionDate.Time, row.InsertionDate.Time
 				}
-				versions[k] = append(versions[k], ver{d, row.Metadata})
+				versions[k] = append(versions[k], v)
 			case *ledger.Transaction:
 				if wr.Key.Table != "tx" || row.ID == nil {
 					continue
 				}
 				k := ek{"transactions", wr.Key.Ledger, fmt.Sprint(*row.ID)}
-				d := row.UpdatedAt.Time
+				v := ver{rec.Begin, rec.At, map[string]string(row.Metadata)}
 				if wr.Before == nil {
-					d = row.Timestamp.Time
+					v.from, v.to = row.Timestamp.Time, row.Timestamp.Time
 				}
-				versions[k] = append(versions[k], ver{d, map[string]string(row.Metadata)})
+				versions[k] = append(versions[k], v)
 			}
 		}
 	}
@@ -377,14 +380,21 @@ func checkMetadataAtPIT(r *runner) []Violation {
 				continue
 			}
 			want := map[string]string{}
+			ambiguous := false
 			if kept {
 				for _, v := range vers {
-					if !v.date.After(pit) {
+					switch {
+					case !v.to.After(pit):
 						want = v.meta
+					case !v.from.After(pit):
+						ambiguous = true // t falls inside the transaction that wrote this version
 					}
 				}
 			} else {
 				want = vers[len(vers)-1].meta
+			}
+			if ambiguous {
+				continue
 			}
 			if !sameMeta(it.Metadata, want) {
 				r.w.probe("pit_metadata_read_judged")
@@ -394,7 +404,7 @@ func checkMetadataAtPIT(r *runner) []Violation {
 				}
 				var hist []string
 				for _, v := range vers {
-					hist = append(hist, fmt.Sprintf("%s:%v", v.date.UTC().Format("2006-01-02T15:04:05.000"), v.meta))
+					hist = append(hist, fmt.Sprintf("%s:%v", v.to.UTC().Format("2006-01-02T15:04:05.000"), v.meta))
 				}
 				vs = append(vs, Violation{prop, "a-read-at-time-t-returns-the-metadata-as-it-was-at-t", fmt.Sprintf("%s GET %s on ledger %s (%s=%s): %s %s carries %v; %s is %v (its versions: %v)", or.Op.ID, or.Op.Raw.Path, ledgerName, feature[resource], val, resource, id, it.Metadata, how, want, hist)})
 			} else {
